@@ -226,6 +226,7 @@ World ==
      [u |-> "dave", c |-> "novec", v1ok |-> FALSE],
      [u |-> "dave", c |-> "flatvec", v1ok |-> FALSE],
      [u |-> "dave", c |-> "stray", v1ok |-> FALSE],
+     [u |-> "pat", c |-> "v1col", v1ok |-> TRUE],
      [u |-> "tim", c |-> "tiny", v1ok |-> FALSE] >>
 V1Ok(u, c) == \E i \in 1..Len(World) : World[i].u = u /\ World[i].c = c /\ World[i].v1ok
 UserV1Ok(u) == \A i \in 1..Len(World) : World[i].u = u => World[i].v1ok
@@ -494,6 +495,9 @@ Bases ==
      B("v1.delcol", "delcol", "bob", "v1col", "accept", "delcol", FALSE, TRUE, <<>>),
      B("v1.insert", "insert", "alice", "v1col", "accept", "change", TRUE, TRUE, V1InsertFields),
      B("v1.update", "update", "alice", "v1col", "accept", "change", TRUE, TRUE, V1UpdateFields),
+     \* pat's collection was created under a larger plan; the limits of the plan the request carries apply
+     B("v1.insert", "downgraded", "pat", "v1col", "reject", "change", TRUE, FALSE, <<>>),
+     B("v1.insert", "downquota", "pat", "v1col", "reject", "change", TRUE, FALSE, <<>>),
      B("v1.delpts", "delpts", "alice", "v1col", "accept", "change", TRUE, TRUE, DeleteFields),
      B("v1.search", "search", "alice", "v1col", "accept", "none", TRUE, TRUE, V1SearchFields),
      \* ---------------- v1 requests that meet a collection created through v2 (no "vector" vamana property)
